@@ -26,7 +26,7 @@ ASSUMPTIONS = ["class identity is the class name; single inheritance", "dataclas
 
 def gen_cases(rng, tier):
     cases = []
-    n_uni = 8 if tier == "quick" else 300
+    n_uni = 14 if tier == "quick" else 300
     for _ in range(n_uni):
         u0 = gen_universe(rng, force_falsy=rng.random() < 0.5)
         names = [c.name for c in u0.classes]
